@@ -31,8 +31,8 @@ PARTIAL = (
     "leave exactly the generic world and outcome on every world of well-formed (unsliced, untransposed) matrices, all "
     "alias patterns, dimension mismatches and integer division by zero; MDOTM (both buffer branches), MDOTV, VDOTM are "
     "modelled as coded and replayed against Go every run but their equality with C03's closed-form generic members is "
-    "NOT proved (C03's closed form of MdotM differs from Go for r = a = b, where both Go members compute the same wrong "
-    "product); integer MdotV/VdotM: the generic member multiplies in float64 — refuted with the witness 94906267^2 on "
+    "NOT proved (r = a = b, where both Go members compute the same wrong product F-MDOTM-RR, is generated and "
+    "both models follow Go there); integer MdotV/VdotM: the generic member multiplies in float64 — refuted with the witness 94906267^2 on "
     "a model with explicit binary64 rounding and int64 wrap-around. Element carrier of (3)-(5) is Z (exact ring): what "
     "only floats can show (sign of zero, 0*Inf, Order/N of magic elements written by the absent-entry cases) is outside "
     "these theorems and is decided per run by the direct generic-vs-concrete comparison on the implementation. NOT "
